@@ -14,11 +14,12 @@ CONFIG = {
                    {"name": "life", "corpus_only": True, "timeout": {"quick": 600, "thorough": 600}},
                    {"name": "burst", "timeout": {"quick": 600, "thorough": 1800}},
                    {"name": "bytes", "timeout": {"quick": 600, "thorough": 2400}},
+                   {"name": "isolate", "timeout": {"quick": 600, "thorough": 1800}},
                    {"name": "socks", "timeout": {"quick": 600, "thorough": 1800}},
                    {"name": "stdiol", "timeout": {"quick": 600, "thorough": 1800}}],
     "rule": "pipe: scripted write/close scenarios on the real PipeData and server per-stream path; bytes: payload sizes 1..65537 (thorough: "
             "to 3 MiB) written then closed by the application (up) or the target (down), and echo, on tcp, tcp+tls, StartTLS, ws, stdio, "
-            "udp/kcp, dns; stdiol: the standard-streams listener (application = a pair of pipes wrapped as Start wraps stdin/stdout) in modes echo / up / down; socks: n connections through the built-in SOCKS5 channel (real CONNECT to a recording target) in modes echo / "
+            "udp/kcp, dns; isolate: a transfer in progress (and idle connections) while another connection of the same session ends cleanly / is reset / floods / is refused on another listener; stdiol: the standard-streams listener (application = a pair of pipes wrapped as Start wraps stdin/stdout) in modes echo / up / down; socks: n connections through the built-in SOCKS5 channel (real CONNECT to a recording target) in modes echo / "
             "source (target writes and closes first) / sink (application writes and closes first) with a goroutine census; non-trivial = delivered intact with EOF; distinct = distinct op line",
     "trusted_base": COMMON_TB + ["transports' close semantics (net, crypto/tls, smux, kcp-go, gorilla/websocket)"],
     "assumptions": ["deadlines 8 s + size-dependent, one retry"],
